@@ -34,7 +34,8 @@ Theorem c01_publish : forall f s c n sid u content noecho,
    msgs (h_st h) = msgs s ++ [mkMsg (c_lastid c + 1) u content 0] /\
    ~ In (c_lastid c + 1) (seqs s) /\
    h_out h = (sid, Ctrl 202 [(P_seq, c_lastid c + 1)]) ::
-             fanout_data (h_ca h) (if noecho then sid else 0%N) (Data (c_lastid c + 1) u content)).
+             fanout_data (h_ca h) (if noecho then sid else 0%N) (Data (c_lastid c + 1) u content)
+             ++ push_out (h_ca h) (c_lastid c + 1) u).
 Proof. exact publish_cases. Qed.
 
 (* every copy of a broadcast is the same frame: same number, author, content *)
@@ -80,5 +81,5 @@ Example c01_ex :
   let s0 := ad_sub_create (mkStore true 0 0 0 47 0 [] [] [] [(1%N, 47%N)]) 1%N 255%N 255%N in
   let r := run (fun _ _ => None) (fun x => x) [(1%N, 1%N)] (mkState s0 None 0)
                [(NoFault, OSub 1 [] false); (NoFault, OPub 1 7 false); (FailAt 2, OPub 1 8 false); (NoFault, OPub 1 9 false)] in
-  map (fun o => out_seqs o) (snd r) = [[]; [1; 1]; []; [2; 2]] /\ t_seqid (st (fst r)) = 2.
+  map (fun o => out_seqs o) (snd r) = [[]; [1; 1; 1]; []; [2; 2; 2]] /\ t_seqid (st (fst r)) = 2.
 Proof. vm_compute. split; reflexivity. Qed.
